@@ -1,5 +1,5 @@
 CONSTANTS P = 83  A = 1  B = 7  Gx = 0  Gy = 16  N = 79
-          SignZ = {1, 2, 3, 4, 5, 6, 7, 8, 9, 10, 11, 12, 13, 14, 15, 16, 17, 18, 19, 20, 21, 22, 23, 24, 25, 26, 27, 28, 29, 30, 31, 32, 33, 34, 35, 36, 37, 38, 39, 40, 78, 79, 80, 157, 158}  VerZ = {1, 2, 78, 79, 80}  VerQ = {2, 3, 4, 5, 20, 21, 40, 41, 60, 77, 78, 79}  RecZ = {1, 2, 78, 79, 80}
+          SignZ = {1, 2, 3, 4, 5, 6, 7, 8, 9, 10, 11, 12, 13, 14, 15, 16, 17, 18, 19, 20, 78, 79, 80, 157, 158}  VerZ = {1, 78, 79, 80}  VerQ = {2, 3, 20, 40, 41, 60, 77, 78, 79}  RecZ = {1, 2, 78, 79, 80}
 SPECIFICATION Spec
 INVARIANT ReturnedVerifies
 CHECK_DEADLOCK FALSE
